@@ -12,6 +12,7 @@ BUILD = os.path.join(ROOT, 'build')
 OBLIGATION_ERRORS = [
     'postcondition not satisfied',
     'precondition not satisfied',
+    'precondition not met',
     'invariant not satisfied',
     'assertion failed',
     'possible arithmetic underflow/overflow',
@@ -65,11 +66,16 @@ def function_spans(unit_text):
     impl_name = None
     impl_depth = None
     start_depth = None
+    mod_re = re.compile(r'^\s*(?:pub\s+)?mod\s+(\w+)\s*\{')
+    mods = []   # (name, depth at which the module body closes)
     for no, ln in enumerate(lines, 1):
         code = re.sub(r'//.*$', '', ln)
         code = re.sub(r'"(?:[^"\\]|\\.)*"', '""', code)
         code = re.sub(r"'(?:[^'\\]|\\.)'", "' '", code)
         if cur is None:
+            mm = mod_re.match(code)
+            if mm:
+                mods.append((mm.group(1), depth))
             mi = impl_re.match(code)
             if mi and impl_name is None:
                 impl_name = mi.group(1)
@@ -79,6 +85,8 @@ def function_spans(unit_text):
                 nm = m.group(1)
                 if impl_name is not None and depth > impl_depth:
                     nm = impl_name + '::' + nm
+                if mods:
+                    nm = '::'.join(m[0] for m in mods) + '::' + nm
                 cur = [nm, no, None]
                 start_depth = depth
                 seen_open = False
@@ -95,6 +103,8 @@ def function_spans(unit_text):
                     cur = None
                 if impl_name is not None and depth == impl_depth and cur is None:
                     impl_name = None
+                if mods and depth == mods[-1][1] and cur is None:
+                    mods.pop()
         if cur is not None and not seen_open and code.rstrip().endswith(';') and depth == start_depth:
             # bodiless fn (assume_specification / uninterp)
             cur[2] = no
